@@ -24,15 +24,16 @@ import (
 )
 
 type checkCfg struct {
-	Engine2    string // second engine: every third worker runs it
-	Engine     string
-	Race       bool
-	QuickS     int
-	ThoroughS  int
-	Level      string
-	Rule       string
-	Real, Stub []string
-	Assume     []string
+	Engine2      string // second engine: every third worker runs it (every Engine2Every-th if set)
+	Engine2Every int
+	Engine       string
+	Race         bool
+	QuickS       int
+	ThoroughS    int
+	Level        string
+	Rule         string
+	Real, Stub   []string
+	Assume       []string
 }
 
 var realCommon = []string{"manager (service loop, jobs, views)", "builder + gopacket reassembly + libpcap (cgo)", "index writer/reader/merger/search", "query parser", "converters (cache file, process pool, JSON protocol) with a real child process", "tools"}
@@ -69,7 +70,7 @@ var checks = map[string]checkCfg{
 		Rule: "one case = one seeded sequence of valid and invalid tag API calls (bad names, dangling/self/cyclic references, marks on stream 0 and unknown ids, unknown converters, renames onto existing names) interleaved with jobs; after every call the tag table projection is compared with a model (rejected => unchanged, accepted => exactly the requested change), the graph is checked (no dangling reference, no cycle, referenced mirrors definitions); a crash of the worker or a watchdog timeout is a violation. distinct = distinct schedule signature",
 		Real: realCommon, Stub: stubCommon,
 		Assume: []string{"which of {applied, rejected} happens is only prescribed where the property names it"}},
-	"C12": {Engine: "mgrsim", Engine2: "cachesim", QuickS: 50, ThoroughS: 1500, Level: "fault_enumeration",
+	"C12": {Engine: "mgrsim", Engine2: "cachesim", Engine2Every: 6, QuickS: 60, ThoroughS: 1500, Level: "fault_enumeration",
 		Rule: "one case = one crash state: during a seeded run the data directory is copied at every I/O point (file create/write/flush/close/remove in manager, builder, index writer, snapshots, cache file) at which the tree changed, plus torn tails of the file being written; each distinct tree is restarted with manager.New, drained and compared with the model as of the snapshot instant (acknowledged tags/settings/endpoints, streams of applied imports under old ids with reference content, converged tags). Clean Close+New restarts are the fault-free configuration. An API call acknowledged while the disk is full must survive a kill taken right after it. After a restart every connection of a one-shot import of the completed captures must be visible and the referenced-by relation of tags must be as before. Every third worker (cachesim) records a converter cache file at every I/O point of store/invalidate/reset/reopen (also inside compaction, torn in-place writes), restarts every state, judges it and continues it with further operations and another restart. distinct = distinct tree hash restarted",
 		Real: realCommon, Stub: stubCommon,
 		Assume: []string{"crash = process kill: the directory contents at that instant are the durable state (the code does not fsync)"}},
@@ -579,7 +580,11 @@ func runWorker(b *build, env []string, cfg checkCfg, prop, tier string, seed, fr
 	scratch := filepath.Join(b.scratch, fmt.Sprintf("w%d", w))
 	os.RemoveAll(scratch)
 	engine := cfg.Engine
-	if cfg.Engine2 != "" && w%3 == 2 {
+	every := cfg.Engine2Every
+	if every == 0 {
+		every = 3
+	}
+	if cfg.Engine2 != "" && w%every == every-1 {
 		engine = cfg.Engine2
 	}
 	cmd := exec.Command(b.worker, "-engine", engine, "-prop", prop, "-tier", tier, "-seed", fmt.Sprint(seed), "-from", fmt.Sprint(from), "-stride", fmt.Sprint(stride), "-runs", "200", "-budget", left.String(), "-scratch", scratch)
